@@ -315,9 +315,14 @@ def gen_jwe_input(w: World, rng: Rng):
             note = "%s.%s := %r" % (pos, m, v)
         elif src == "inner":
             what = rng.pick(["garbage-deflate", "truncated-deflate", "zlib-wrapped", "empty-deflate", "wrong-cek-length", "deflate-of-non-json",
-                             "stored-block-huge-len"])
+                             "stored-block-huge-len", "raw-ciphertext", "raw-ciphertext"])
             note = "inner:" + what
-            if what == "wrong-cek-length":
+            if what == "raw-ciphertext":
+                # ciphertext octets no honest encryptor emits under a valid tag (only CBC-HMAC lets the holder of the CEK do that):
+                # empty, not block aligned, a block whose padding is wrong in every way
+                kw["raw_ciphertext"] = rng.pick([b"", b"", b"\x00", rng.bytes_(15), rng.bytes_(17), rng.bytes_(16), rng.bytes_(32), b"\x00" * 16, b"\xff" * 16])
+                note += ":%d" % len(kw["raw_ciphertext"])
+            elif what == "wrong-cek-length":
                 kw["wrap_cek"] = rng.bytes_(rng.pick([1, 8, 15, 17, 24, 31, 33, 40, 64]))
             else:
                 prot["zip"] = "DEF"
